@@ -17,7 +17,7 @@ func init() {
 		Parts: []simkit.Part{
 			{Name: "detsim-c20", Fn: detsim.C20, Shards: true, Runs: map[string]int{"quick": 2000, "thorough": 100000}},
 			{Name: "detsim-c20-procs", Fn: detsim.C20Procs, Shards: true, Runs: map[string]int{"quick": 40, "thorough": 1000}},
-			{Name: "detsim-c20-race", Fn: detsim.C20Race, Runs: map[string]int{"quick": 0, "thorough": 300}},
+			{Name: "detsim-c20-race", Fn: detsim.C20Race, Runs: map[string]int{"quick": 12, "thorough": 300}},
 		},
 		Rule:           "one run = generated schema pair (A, B = A after 1-4 edits; 2-4 tables with indexes, checks, foreign keys) + a directory of 2-6 files; operations: diff+plan+DefaultFormatter for sqlite/mysql/postgres, MarshalHCL + EvalHCLBytes + MarshalHCL for the three dialects, MemDir checksum; schedules: 2-4 map-iteration orders at every seamed map-range site (the same bytes are required), one permutation of the declaration order of tables / indexes / foreign keys / checks (the multiset of statements must not change), a tape-scheduled interleaving of all operations cut at call boundaries, a repeat in the same process, and (second part) three fresh processes each under its own map order; distinct = distinct trace hash",
 		RequiredFaults: []string{"map-order-permuted", "declaration-order-permuted", "operations-interleaved", "fresh-process"},
@@ -26,7 +26,7 @@ func init() {
 		Stub:           []string{"verifmap.Keys (generated into the scratch copy): sorted keys permuted by the simulator's seed"},
 		Assumptions: []string{
 			"map iteration inside third-party dependencies (hcl, cty, text/template) is outside the seam",
-			"goroutine-level interleaving inside CPU-only library code has no yield points the simulator could own; interleaving is at call boundaries. The thorough tier adds a labelled probe (detsim-c20-race): the operations on real goroutines under the race detector, built from the unmodified code; a finding of that part replays the operation set, not a schedule",
+			"goroutine-level interleaving inside CPU-only library code has no yield points the simulator could own; interleaving is at call boundaries. A labelled probe (detsim-c20-race, a few runs in the quick tier, 300 in the thorough one): the operations on real goroutines under the race detector, built from the unmodified code; a finding of that part replays the operation set, not a schedule",
 		},
 		SimTimeUnit: "operations executed under a schedule",
 		Extra: func() map[string]any {
